@@ -135,6 +135,34 @@ CLAIMED['C09'] = dict(
          'across remove(), share one cell but cache separately. Identities contain no underscore.',
     ref='DESIGN.md 5 C09')
 
+CLAIMED['C03'] = dict(
+    text='On the shared scanning-core model (every function compared with the real one at function level on each run) the round trip is proved for ALL strings: unescape_escape, '
+         'helpUnescape_helpEscape, scan_escape / nextUnquoted_skips_quoted (quote-parity invariant), parse_labels_render (any label values, legacy or quoted names, any number of labels), '
+         'sample_line_roundtrip (name, labels, value token, milliseconds), help/type_line_roundtrip, and at document level text_roundtrip_samples (every exposed sample comes back in order, incl. '
+         'trailing _created/_gsum/_gcount groups) and text_roundtrip_families (the documented name/type munging). Escape chains, regex anchors, munging table and suffix lists are re-extracted '
+         'each run; real registries over an adversarial alphabet in every position are exposed, parsed back and compared by an oracle written from the property text.',
+    note='Known finding (listed): reserved __ label names written by sites that do not validate them (F20) — LabelsOK excludes exactly those. Number parsing is a parameter with the law '
+         'pyFloat(floatToGoString v) = v (C13 + CPython); int(float(ts)*1000) is CPython arithmetic passed in. Trusted: Lean kernel, extractor, sampling correspondence.',
+    ref='DESIGN.md 5 C03')
+CLAIMED['C14'] = dict(
+    text='Both parsers are modelled in full with every raising site explicit (IndexError, KeyError, TypeError, AttributeError, OverflowError, timeout), loops with fuel; text_parser_total and '
+         'om_parser_total: for EVERY input string and EVERY choice of the number-parsing parameters the result is families or ValueError, never another class and never out of fuel '
+         '(text_parser_no_timeout, om_parser_no_timeout), incl. the native-histogram detector and struct parser (regexes modelled by hand-written matchers over extracted Unicode class tables) and '
+         'Timestamp comparisons. Each repaired raise site is a T1 flag, so reverting a fix breaks the theorem. Grammar-generated documents with all single mutations and truncation at every '
+         'offset, plus unstructured strings, are run twice through both real parsers under a watchdog and compared with the model.',
+    note='Hypotheses of om_parser_total are interpreter facts (float("NaN") is NaN; no \\d character is whitespace), validated on the generated tables. int()/float() raise only ValueError (trusted). '
+         'Determinism of the real code is sampled (each input parsed twice).',
+    ref='DESIGN.md 5 C14')
+CLAIMED['C15'] = dict(
+    text='One theorem per rule of the statement over lists of parsed lines with the offending line at an arbitrary position and arbitrary names, labels, numbers, groups before and after it: '
+         'missing_eof, content_after_eof, blank_line, repeated/late_metadata, interleaved/clashing_families, unit_not_suffix, unit_on_info_or_stateset, info_not_one, stateset_bad_value/no_label, '
+         'counter_like_nan/negative, quantile_out_of_range, count_not_integral, timestamp_backwards/partial, duplicate_label, exemplar_ineligible/too_long, bucket_bound_nan, '
+         'hist_bounds_not_increasing, hist_counts_not_cumulative (document level), hist_no_inf_partial / hist_count_ne_inf_partial (on the family sample list). Suffix lists, comparison operators, '
+         'limits and keywords are re-extracted each run; valid generated documents × 26 rule-violating transformations × every applicable position are fed to the real parser.',
+    note='Documented exemptions (run against the real parser each check): info timestamp order, order across groups, negative _gsum, _created, dropped duplicate lines, families without # TYPE. '
+         'Two histogram rules lack the line→sample-list composition (stated as missing).',
+    ref='DESIGN.md 5 C15')
+
 PENDING_REASON = 'not claimed yet: model/theorems for this property are not built at this commit (work order in DESIGN.md 8); no other technique is substituted'
 
 
